@@ -263,19 +263,15 @@ PO6_AUDIT = {
         'address has code space + 1 entries',
     'QGramIndex::qgram_matches|index:|index(arg1.pos,Range::Range{Index<I>>::index(arg1.address,arg2),Index<I>>::index(arg1.address,Add(arg2,1).0)})<std::vec::Vec<usize>>':
         'address is a prefix sum whose last entry is pos.len(): address[c] <= address[c+1] <= pos.len()',
-    'QGramIndex::matches|overflow-add:usize|(Iterator>::next(x0) as Some).0.0,arg1.q':
-        'text / pattern positions plus q stay far below usize::MAX',
-    'QGramIndex::matches|overflow-add:usize|(Iterator>::next(x0) as Some).0,arg1.q':
+    'QGramIndex::matches|overflow-add:usize|x0,arg1.q':
         'text / pattern positions plus q stay far below usize::MAX',
     'QGramIndex::matches|overflow-add:usize|OccupiedEntry::get_mut(x0).count,1':
         'at most one hit per (pattern position, text position)',
-    'QGramIndex::matches|overflow-sub:isize|(Iterator>::next(x0) as Some).0,(Iterator>::next(x1) as Some).0.0':
+    'QGramIndex::matches|overflow-sub:isize|x0,x1':
         'difference of two positions < isize::MAX taken in isize',
-    'QGramIndex::exact_matches|overflow-sub:i32|(Iterator>::next(x0) as Some).0,(Iterator>::next(x1) as Some).0.0':
+    'QGramIndex::exact_matches|overflow-sub:i32|x0,x1':
         'difference of two positions taken in i32 (sequences shorter than 2^31)',
-    'QGramIndex::exact_matches|overflow-add:usize|(Iterator>::next(x0) as Some).0.0,arg1.q':
-        'positions plus q stay far below usize::MAX',
-    'QGramIndex::exact_matches|overflow-add:usize|(Iterator>::next(x0) as Some).0,arg1.q':
+    'QGramIndex::exact_matches|overflow-add:usize|x0,arg1.q':
         'positions plus q stay far below usize::MAX',
     'QGramIndex::exact_matches|overflow-sub:usize|OccupiedEntry::get_mut(x0).pattern.stop,arg1.q':
         'pattern.stop = i + q >= q',
